@@ -207,7 +207,7 @@ class Translation:
                 continue
             if op is sre_c.AT:
                 if arg in (sre_c.AT_BEGINNING, sre_c.AT_BEGINNING_STRING):
-                    if not at_start:
+                    if acc is not EPS:
                         acc = z3.Intersect(acc, EPS)
                     continue
                 if arg is sre_c.AT_END:
@@ -229,10 +229,7 @@ class Translation:
                 if len(sub) == 1 and sub[0][0] is sre_c.AT and sub[0][1] in (sre_c.AT_BEGINNING,
                                                                              sre_c.AT_BEGINNING_STRING):
                     # (?<=^): nothing has been consumed yet (patterns are applied with match() at offset 0)
-                    if not at_start:
-                        acc = z3.Intersect(acc, EPS if op is sre_c.ASSERT else z3.Complement(EPS))
-                    elif op is sre_c.ASSERT_NOT:
-                        acc = z3.Intersect(acc, z3.Complement(EPS))
+                    acc = z3.Intersect(acc, EPS if op is sre_c.ASSERT else z3.Complement(EPS))
                     continue
                 y = z3.Concat(FULL, self.plain(sub))
                 if op is sre_c.ASSERT_NOT:
